@@ -151,13 +151,16 @@ template <class PT> void run_sequences(vf::Ctx& c, const char* tname, const Scen
   for (size_t i = n; i-- > 0;) { cor[0].emplace_back(i, i); if (i % 2 == 0) cor[1].emplace_back(i, i); }   // index-based on the FULL sets; half = every other point
   const S scales[4] = {(S)1, (S)1, (S)0.05, (S)40};   // index 0: no setPreconditioner call at all
   const int NOPS = 16;
-  auto opname = [&](int op) { int size = op & 1, form = (op >> 1) & 1, pre = op >> 2; char b[96]; snprintf(b, 96, "%s%s %s points", pre == 0 ? "find " : pre == 1 ? "setPreconditioner(1)+find " : pre == 2 ? "setPreconditioner(0.05)+find " : "setPreconditioner(40)+find ", form ? "aligned" : "index-based", size ? "half" : "all"); return std::string(b); };
-  auto run_op = [&](FindRigidTransformationByLeastSquares<PT>& est, int op) -> H {
+  auto opname = [&](int op) { int size = op & 1, form = (op >> 1) & 1, pre = op >> 2; char b[96]; snprintf(b, 96, "%s%s %s points", pre == 0 ? "find (sets scaled as configured) " : pre == 1 ? "setPreconditioner(1)+find " : pre == 2 ? "setPreconditioner(0.05)+find " : "setPreconditioner(40)+find ", form ? "aligned" : "index-based", size ? "half" : "all"); return std::string(b); };
+  // configured = preconditioner state of the estimator according to the model (0 none, 1..3 = scales[.]); an operation with pre == 0 keeps it
+  // and hands over the point sets scaled accordingly, pre >= 1 calls setPreconditioner first
+  auto run_op = [&](FindRigidTransformationByLeastSquares<PT>& est, int op, int configured) -> H {
     int size = op & 1, form = (op >> 1) & 1, pre = op >> 2;
-    if (pre == 0) return form ? est.find(src[size], tgt[size], nrm[size]) : est.find(src[0], tgt[0], nrm[0], cor[size]);
-    S sc = scales[pre];
-    if (form) { PreconditionedPointSet<PT> ps(src[size], sc), pt(tgt[size], sc); est.setPreconditioner(ps, pt); return est.find(ps, pt, nrm[size]); }
-    PreconditionedPointSet<PT> ps(src[0], sc), pt(tgt[0], sc); est.setPreconditioner(ps, pt); return est.find(ps, pt, nrm[0], cor[size]);
+    int eff = pre ? pre : configured;
+    if (eff == 0) return form ? est.find(src[size], tgt[size], nrm[size]) : est.find(src[0], tgt[0], nrm[0], cor[size]);
+    S sc = scales[eff];
+    if (form) { PreconditionedPointSet<PT> ps(src[size], sc), pt(tgt[size], sc); if (pre) est.setPreconditioner(ps, pt); return est.find(ps, pt, nrm[size]); }
+    PreconditionedPointSet<PT> ps(src[0], sc), pt(tgt[0], sc); if (pre) est.setPreconditioner(ps, pt); return est.find(ps, pt, nrm[0], cor[size]);
   };
   // per-op tolerance from the forward-error bound of the (scaled) problem; fresh answers
   LD tolOp[NOPS]; LV xFresh[NOPS]; bool usable[NOPS];
@@ -177,31 +180,39 @@ template <class PT> void run_sequences(vf::Ctx& c, const char* tname, const Scen
     LV xs = J.householderQr().solve(Y);
     LD tt = 8 * P * eps * kap * kap * (xs.norm() + Y.norm() / smax) + 16 * eps * (1 + tr.norm());
     tolOp[op] = tt / std::min<LD>(1, scale) + tt;
-    FindRigidTransformationByLeastSquares<PT> fresh; bool shape; xFresh[op] = params_of<PT>(run_op(fresh, op), shape);
+    FindRigidTransformationByLeastSquares<PT> fresh; bool shape; xFresh[op] = params_of<PT>(run_op(fresh, op, 0), shape);
     LV want = xs; for (int d = 0; d < DIM; ++d) want[d] /= scale;   // translation of the scaled problem maps back through 1/scale
     c.eval();
     if (usable[op] && (!shape || !((xFresh[op] - want).norm() <= tolOp[op])))
       c.violation("FindRigidTransformationByLeastSquares.find.notLeastSquaresSolution", vf::JO().str("type", tname).str("scene", sc.name).str("explorer", "S").str("op", opname(op)).done(), vf::JO().num("param_err", (xFresh[op] - want).norm()).num("tol", tolOp[op]).done());
   }
-  uint64_t total = 1; for (int i = 1; i < depth; ++i) total *= NOPS;
+  const int NALL = NOPS + 2;   // + "assign the estimator to another, long-lived one and continue with that one", "continue with a copy-constructed estimator"
+  auto opname2 = [&](int op) { return op < NOPS ? opname(op) : op == NOPS ? std::string("other = estimator; continue with other") : std::string("continue with a copy-constructed estimator"); };
+  uint64_t total = 1; for (int i = 1; i < depth; ++i) total *= NALL;
   std::vector<int> seq(depth); seq[0] = firstOp;
+  using Est = FindRigidTransformationByLeastSquares<PT>;
   for (uint64_t k = 0; k < total; ++k) {
-    uint64_t r = k; for (int i = 1; i < depth; ++i) { seq[i] = r % NOPS; r /= NOPS; }
-    FindRigidTransformationByLeastSquares<PT> est; int modelPre = 0;
+    uint64_t r = k; for (int i = 1; i < depth; ++i) { seq[i] = r % NALL; r /= NALL; }
+    std::unique_ptr<Est> cur(new Est), other(new Est); int modelPre = 0;
+    { PreconditionedPointSet<PT> ps(src[1], scales[3]), pt(tgt[1], scales[3]); other->setPreconditioner(ps, pt); other->find(ps, pt, nrm[1]); }   // the other estimator has a past of its own
     for (int i = 0; i < depth; ++i) {
-      int op = seq[i], pre = op >> 2;
-      if (pre == 0 && modelPre >= 2) break;   // a plain find while a non-unit preconditioner is configured: outside the statement
+      int op = seq[i];
+      c.transitions();
+      if (op == NOPS) { *other = *cur; std::swap(cur, other); continue; }
+      if (op == NOPS + 1) { std::unique_ptr<Est> cp(new Est(*cur)); other = std::move(cur); cur = std::move(cp); continue; }
+      int pre = op >> 2;
       if (pre) modelPre = pre;
-      if (!usable[op]) break;
-      c.transitions(); c.eval(); if (i) c.nontrivial();
-      bool shape; LV x = params_of<PT>(run_op(est, op), shape);
+      int xop = (op & 3) | (modelPre << 2);   // the operation whose fresh answer applies: same size / form, the configured scale
+      if (!usable[xop]) break;
+      c.eval(); if (i) c.nontrivial();
+      bool shape; LV x = params_of<PT>(run_op(*cur, op, modelPre), shape);
       for (int j = 0; j < P; ++j) c.obs((double)x[j]);
-      LD err = x.allFinite() ? (x - xFresh[op]).norm() : HUGE_VALL;
-      c.note_max(std::string("sequence_err_over_tol_") + tname, (double)(err / (2 * tolOp[op])));
-      if (!shape || !(err <= 2 * tolOp[op])) {
-        std::vector<std::string> h; for (int j = 0; j <= i; ++j) h.push_back(opname(seq[j]));
+      LD err = x.allFinite() ? (x - xFresh[xop]).norm() : HUGE_VALL;
+      c.note_max(std::string("sequence_err_over_tol_") + tname, (double)(err / (2 * tolOp[xop])));
+      if (!shape || !(err <= 2 * tolOp[xop])) {
+        std::vector<std::string> h; for (int j = 0; j <= i; ++j) h.push_back(opname2(seq[j]));
         c.violation("FindRigidTransformationByLeastSquares.find.dependsOnHistory", vf::JO().str("type", tname).str("scene", sc.name).str("explorer", "S").strs("history", h).done(),
-                    vf::JO().num("difference_from_fresh_estimator", err).num("tol", 2 * tolOp[op]).vec("got", std::vector<LD>(x.data(), x.data() + P)).vec("fresh", std::vector<LD>(xFresh[op].data(), xFresh[op].data() + P)).done());
+                    vf::JO().num("difference_from_fresh_estimator", err).num("tol", 2 * tolOp[xop]).vec("got", std::vector<LD>(x.data(), x.data() + P)).vec("fresh", std::vector<LD>(xFresh[xop].data(), xFresh[xop].data() + P)).done());
         break;
       }
     }
@@ -216,12 +227,12 @@ void init() { if (g2.empty()) { g2 = scenes(2); g3 = scenes(3); } }
 
 }  // namespace
 
-uint64_t vf_ncases(const std::string& tier) { init(); return 4 * g2.size() + 4 * g3.size() + 8 * 16; }
+uint64_t vf_ncases(const std::string& tier) { init(); return 4 * g2.size() + 4 * g3.size() + 8 * 18; }
 
 void vf_run(uint64_t idx, const std::string& tier, vf::Ctx& c) {
   init();
   uint64_t nl = 4 * g2.size() + 4 * g3.size();
-  if (idx >= nl) { int t = (int)(idx - nl) / 16, f = (int)(idx - nl) % 16, d = tier == "thorough" ? 6 : 3;
+  if (idx >= nl) { int t = (int)(idx - nl) / 18, f = (int)(idx - nl) % 18, d = tier == "thorough" ? 6 : 3;
     switch (t) { case 0: run_sequences<Eigen::Vector2d>(c, kTypes[0], g2[1], d, f); break; case 1: run_sequences<Eigen::Vector2f>(c, kTypes[1], g2[1], d, f); break; case 2: run_sequences<HomogeneousCoordinates2d>(c, kTypes[2], g2[1], d, f); break; case 3: run_sequences<HomogeneousCoordinates2f>(c, kTypes[3], g2[1], d, f); break;
       case 4: run_sequences<Eigen::Vector3d>(c, kTypes[4], g3[1], d, f); break; case 5: run_sequences<Eigen::Vector3f>(c, kTypes[5], g3[1], d, f); break; case 6: run_sequences<HomogeneousCoordinates3d>(c, kTypes[6], g3[1], d, f); break; default: run_sequences<HomogeneousCoordinates3f>(c, kTypes[7], g3[1], d, f); }
     return; }
@@ -231,7 +242,7 @@ void vf_run(uint64_t idx, const std::string& tier, vf::Ctx& c) {
     switch (t) { case 0: run_scene<Eigen::Vector3d>(c, kTypes[4], s, tier == "thorough"); break; case 1: run_scene<Eigen::Vector3f>(c, kTypes[5], s, tier == "thorough"); break; case 2: run_scene<HomogeneousCoordinates3d>(c, kTypes[6], s, tier == "thorough"); break; default: run_scene<HomogeneousCoordinates3f>(c, kTypes[7], s, tier == "thorough"); } }
 }
 
-std::string vf_case_params(uint64_t idx, const std::string& tier) { init(); if (idx >= 4 * g2.size() + 4 * g3.size()) return vf::JO().u("case", idx).str("explorer", "S").str("type", kTypes[(idx - 4 * g2.size() - 4 * g3.size()) / 16]).u("first_op", (idx - 4 * g2.size() - 4 * g3.size()) % 16).done(); bool is2 = idx < 4 * g2.size(); uint64_t r = is2 ? idx : idx - 4 * g2.size(); const auto& g = is2 ? g2 : g3; return vf::JO().u("case", idx).str("type", kTypes[(is2 ? 0 : 4) + r / g.size()]).str("scene", g[r % g.size()].name).done(); }
+std::string vf_case_params(uint64_t idx, const std::string& tier) { init(); if (idx >= 4 * g2.size() + 4 * g3.size()) return vf::JO().u("case", idx).str("explorer", "S").str("type", kTypes[(idx - 4 * g2.size() - 4 * g3.size()) / 18]).u("first_op", (idx - 4 * g2.size() - 4 * g3.size()) % 18).done(); bool is2 = idx < 4 * g2.size(); uint64_t r = is2 ? idx : idx - 4 * g2.size(); const auto& g = is2 ? g2 : g3; return vf::JO().u("case", idx).str("type", kTypes[(is2 ? 0 : 4) + r / g.size()]).str("scene", g[r % g.size()].name).done(); }
 
 std::string vf_describe(const std::string& tier) {
   init(); vf::JO o; std::vector<std::string> a, b; for (auto& s : g2) a.push_back(s.name); for (auto& s : g3) b.push_back(s.name);
@@ -240,7 +251,7 @@ std::string vf_describe(const std::string& tier) {
   o.str("motions", "rotation angle {0,1e-4,1e-2,0.1} about z (3D: z, x, (1,-1,1)) x translation {0, (0.05,-0.02,0.03), 0.4 x extent}; exact and perturbed (0.01) sources");
   o.str("correspondences", "identity, subset in reversed order, target and normals stored permuted (source index != target index)");
   o.str("overloads", "index-based on a fresh estimator, index-based on one estimator reused for the whole scene, aligned, preconditioned by 1e-3 and 1e3 with setPreconditioner");
-  o.str("S", std::string("every sequence of ") + (tier == "thorough" ? "6" : "3") + " calls out of 16 (all / half of the points x index-based / aligned x {plain find, setPreconditioner with scale 1, 0.05, 40 then find}) on ONE estimator, 8 point types, 40-point square / 96-point box with a 0.09 rad motion and perturbed sources; every answer within twice the forward-error bound of the answer of a fresh estimator; a plain find while a non-unit preconditioner is configured ends the sequence (outside the statement)");
+  o.str("S", std::string("every sequence of ") + (tier == "thorough" ? "6" : "3") + " operations out of 18 (all / half of the points x index-based / aligned x {find on sets scaled as configured, setPreconditioner with scale 1, 0.05, 40 then find}; assign the estimator to another long-lived estimator and continue with that one; continue with a copy-constructed estimator) on ONE estimator, 8 point types, 40-point square / 96-point box with a 0.09 rad motion and perturbed sources; every answer within twice the forward-error bound of the answer of a fresh estimator");
   o.str("oracle", "J and Y rebuilt from the definition in long double; parameters vs Householder-QR solution within 4 p eps kappa^2 (|x|+|Y|/smax); identity+skew+translation shape; normal-equation residual; all overloads agree; pure translation exact; rotation error <= 2 kappa theta^2 (extent+|t|+1) sqrt(p); kappa(J)^2 >= 1e6 or no digits in the scalar type => outside the quantifier (trivial)");
   return o.done();
 }
